@@ -36,6 +36,11 @@ func vpTransferEnv() (*vpEnv, int) {
 	var env *vpEnv
 	if vpBool("set-at-runtime") {
 		env = vpServer(fs, ExportOptions{})
+		if vpBool("fsinfo-served-before-the-change") {
+			// a client asked before the change; what the next FSINFO advertises is the new limits
+			vpGetFsinfo(env, env.handleFor("/d/x"))
+			vpReach("fsinfo-before-change")
+		}
 		env.nfs.UpdateTuningOptions(func(t *TuningOptions) { t.TransferSize = ts })
 		vpReach("runtime")
 		// ... possibly followed by an update that leaves the field zero (an ExportOptions literal
